@@ -5,6 +5,7 @@
 //          objects that are moved, move-assigned (onto empty / live / self),
 //          unregistered and destroyed; region 4 KiB (limit 4095) or 64 KiB.
 #include "../sim/world_common.hpp"
+#include "../sim/aligned_new.hpp" // fresh heap blocks hold 0xA5: a member left unwritten by a constructor is visible, and the same in every execution
 #include "rlbox_noop_sandbox.hpp"
 #include <memory>
 #include <optional>
@@ -429,6 +430,14 @@ struct AppTokenWorld : World
             c.probe("owner_moved");
             if (!slots[si].o->is_unregistered())
               c.violate("C15", "moved_from_owner_not_inert@move_construct", "slot=%zu", si);
+            if (n.tok == 0)
+              c.probe("owner_move_constructed_from_inert_source");
+            if (n.o->is_unregistered() != (n.tok == 0)) {
+              // the new owner claims something the source never had (or lost what it had); its destructor cannot be trusted
+              c.violate("C15", "move_constructed_owner_state_wrong@move_construct", "source_tok=%llu claims_registered=%d", (unsigned long long)n.tok, (int)!n.o->is_unregistered());
+              (void)n.o.release();
+              break;
+            }
             slots.push_back(std::move(n));
             break;
           }
